@@ -97,7 +97,8 @@ def build(reg):
     BASE_KEYS = "params.has_MOTIF_SIZES and params.has_BUILD_FUNCTIONS and params.has_EDGE_NAMES"
     mb.fn("GCMAlgorithm.__init__", params={"params": PG}, assigns=["_motif_sizes", "_build_functions", "_edge_names"],
           ensures={"stores_the_parameters_unchanged": "self._motif_sizes == params.MOTIF_SIZES and self._build_functions == params.BUILD_FUNCTIONS and self._edge_names == params.EDGE_NAMES", "params_untouched": "params == old(params)"},
-          raises={"TypeError": dict(when=f"not ({BASE_KEYS})")})
+          # which exception class reports a missing parameter is not part of any statement (today: TypeError, from `raise (str)`)
+          raises={"TypeError": dict(when=f"not ({BASE_KEYS})", only=False), "ValueError": dict(when=f"not ({BASE_KEYS})", only=False), "KeyError": dict(when=f"not ({BASE_KEYS})", only=False)})
     m = reg.module("gcmpy/gcm_algorithm/gcm_algorithm_custom_motifs.py")
     m.cls("GCMAlgorithmCustomMotifs", fields={"_motif_sizes": LInt, "_edge_names": LFn, "_build_functions": LFn, "_motif_indices": LL}, bases=["GCMAlgorithm"])
     # ---- partition(lst, n): consecutive n-slices, as many as range(0, len(lst), n) has elements
@@ -110,7 +111,8 @@ def build(reg):
          ensures={"orbit_index_lists_stored_unchanged": "self._motif_indices == params.MOTIF_INDICES",
                   "base_parameters_stored_unchanged": "self._motif_sizes == params.MOTIF_SIZES and self._build_functions == params.BUILD_FUNCTIONS and self._edge_names == params.EDGE_NAMES",
                   "params_untouched": "params == old(params)"},
-         raises={"TypeError": dict(when=f"not ({BASE_KEYS} and params.has_MOTIF_INDICES)")})
+         raises={"TypeError": dict(when=f"not ({BASE_KEYS} and params.has_MOTIF_INDICES)", only=False), "ValueError": dict(when=f"not ({BASE_KEYS} and params.has_MOTIF_INDICES)", only=False),
+                 "KeyError": dict(when=f"not ({BASE_KEYS} and params.has_MOTIF_INDICES)", only=False)})
     E = "EdgeList"; MID = f"{E}._motif_id[p]"
     RES = "motif_edges(self._build_functions[rec_j[{m}]], rec_vs[{m}])"; NMS = "motif_edge_names(self._edge_names[rec_j[{m}]])"
     COLS = {"par1": f"len({E}._edge_list) == len({E}._topologies)", "par2": f"len({E}._edge_list) == len({E}._motif_id)", "gen": "gen >= 0", "jds": f"(len({E}._joint_degrees) == len(jds) and forall(vj, 0, len(jds), {E}._joint_degrees[vj] == jds[vj], trigger={E}._joint_degrees[vj]))",
